@@ -74,6 +74,19 @@ def check_case(sp, col, shard, seed_parts):
         b = B.build(sp)
         if b.dsg is None:
             return
+        # a nominal value stored on the design space graph itself before the processor is built (half of the cases)
+        preset = {}
+        if rnd.random() < .5:
+            for n_ in sp['nodes']:
+                if n_['kind'] == 'dv' and b.node[n_['id']] in b.dsg.graph.nodes and n_['id'] not in follower_of:
+                    v_ = 0 if 'options' in n_ else n_['bounds'][0]
+                    try:
+                        b.dsg.set_des_var_value(b.node[n_['id']], v_)
+                        preset[n_['id']] = v_
+                    except Exception:  # noqa
+                        pass
+                    break
+        base_before = O.instance(b.dsg, b)['dv']
         try:
             gp = GraphProcessor(b.dsg, encoder_type=getattr(SelChoiceEncoderType, enc))
             dvs = gp.des_vars
@@ -83,6 +96,7 @@ def check_case(sp, col, shard, seed_parts):
         dv_idx = [i for i, dv in enumerate(dvs) if isinstance(dv.node, an.DesignVariableNode)]
         if not dv_idx:
             continue
+        handed_out = []   # (instance, what it stored when it was returned)
         for trial in range(14):
             x, given = [], {}
             for i, dv in enumerate(dvs):
@@ -106,6 +120,22 @@ def check_case(sp, col, shard, seed_parts):
                 break
             did = True
             obs = O.instance(g, b)
+            # instances decoded earlier (and the design space graph) keep holding the values of their own vector
+            for k_, (g_old, dv_old) in enumerate(handed_out):
+                col.count('monitor_earlier_instance_rechecks')
+                now_ = O.instance(g_old, b)['dv']
+                if now_ != dv_old:
+                    col.violation('earlier_instance_values_changed', sp,
+                                  {'instance_no': k_, 'held': dv_old, 'holds_now': now_, 'after_decoding': x, 'enc': enc,
+                                   'preset': preset}, flags, where={'enc': enc, 'preset': bool(preset)})
+                    handed_out = []
+                    break
+            if O.instance(b.dsg, b)['dv'] != base_before:
+                col.violation('design_space_graph_values_changed', sp,
+                              {'before': base_before, 'now': O.instance(b.dsg, b)['dv'], 'after_decoding': x, 'enc': enc},
+                              flags, where={'enc': enc, 'preset': bool(preset)})
+                base_before = O.instance(b.dsg, b)['dv']
+            handed_out.append((g, obs['dv']))
             present = set(obs['nodes'])
             stored = dict(obs['dv'])
             x1 = D.to_list(x1)
